@@ -11,7 +11,7 @@ the language reference permits as their outcome.  This module only
 It contains no knowledge of what the right answer of an operation is.
 
 Case record printed by EgoTypes_Arith (one JSON object per table cell, field `exp` per --types mode):
-  {"key": "bin/+/v:int8/c:300", "form": "bin"|"neg"|"inc"|"cas"|"asg", "op": "+",
+  {"key": "bin/+/v:int8/c:300", "form": "bin"|"neg"|"inc"|"cas"|"asg", "decl": "var"|"def", "op": "+",
    "l": OPD, "r": OPD, "exp": {"dynamic": {"wf": bool, "o": [OUT, ...]}, "relaxed": ..., "strict": ...}}
   OPD = {"c": is-untyped-constant, "k": kind, "cls": value class name ("none" = no operand),
          "lit": literal text, "slit": the same number as a signed 64-bit literal, "val": canonical value text}
@@ -73,10 +73,12 @@ def parse_vt(tok):
 
 # ------------------------------------------------------------------ projection of arithmetic cases to source text
 
-def _decl(lang, name, o):
-    """a typed variable holding the operand's value.  Ego reads integer literals above MaxInt64 as floats, so such
+def _decl(lang, name, o, style="var"):
+    """a typed variable holding the operand's value ("var a T = T(v)", or "a := T(v)" for style "def").  Ego reads integer literals above MaxInt64 as floats, so such
     a value is written as the conversion of its two's complement literal (slit); Go takes the literal itself."""
     lit = o["slit"] if lang == "ego" else o["lit"]
+    if style == "def":
+        return "%s := %s(%s)" % (name, o["k"], lit)
     return "var %s %s = %s(%s)" % (name, o["k"], o["k"], lit)
 
 
@@ -90,7 +92,7 @@ def snippet_arith(lang, sid, case, guard=False):
             return None
         if o["c"]:
             return o["lit"]
-        lines.append(_decl(lang, name, o))
+        lines.append(_decl(lang, name, o, case.get("decl", "var")))
         shown.append(name)
         return name
     a = operand(l, "a")
